@@ -723,6 +723,30 @@ def violates_readers_agree(data, length, n_reads=3):
     return None
 
 
+def violates_eos(data, k):
+    """after k single-bit reads both readers are at the end of the stream exactly when k >= 8 * len(data) - whatever the
+    bytes are - and report the same position"""
+    from vc2_conformance.bitstream.io import BitstreamReader, to_bit_offset
+    from vc2_conformance.pseudocode.state import State
+    from vc2_conformance.decoder import io as dio
+
+    want = k >= 8 * len(data)
+    r = BitstreamReader(BytesIO(data))
+    st = State()
+    dio.init_io(st, BytesIO(data))
+    try:
+        for _ in range(k):
+            r.read_bit()
+            dio.read_bit(st)
+        got = (r.is_end_of_stream(), dio.is_end_of_stream(st), to_bit_offset(*r.tell()), to_bit_offset(*dio.tell(st)))
+    except Exception as e:  # noqa
+        return "%d bit reads on %d bytes raise %s" % (k, len(data), _err(e))
+    if got != (want, want, k, k):
+        return ("after %d of %d bits: (BitstreamReader.is_end_of_stream, decoder is_end_of_stream, tells) = %s, expected %s"
+                % (k, 8 * len(data), got, (want, want, k, k)))
+    return None
+
+
 class Prop(object):
     id = "C20"
     lean_modules = ["VC2.Props.C20"]
@@ -823,6 +847,11 @@ class Prop(object):
                 why = violates_fixed_width(n, v)
                 if why:
                     return {"kind": "fixed_width", "n": n, "v": v, "why": why}
+        for data in [b"", b"\x00", b"\xff", b"\x00\x00", b"\xff\x00", b"\x00\xff", b"\x01\x80\x00", bytes(rng.getrandbits(8) for _ in range(3))]:
+            for k in range(0, 8 * len(data) + 1):
+                why = violates_eos(data, k)
+                if why:
+                    return {"kind": "end-of-stream", "data": data.hex(), "bits_read": k, "why": why}
         for a in range(256):
             for b in (0, 255, 0xA5, 0x5A):
                 for L in range(0, 18):
